@@ -66,3 +66,103 @@ End Limbs.
 (* re-limbing: the same bit string read with limb width w or k*w has the same value, so
    results that agree modulo 2^(w*len) cannot depend on the block type *)
 Print Assumptions ladd_mod.
+
+(* ---- schoolbook multiplication, the loop nest of integer::operator*= / blockbinary::operator*= :
+     for i: segment = 0; for j: segment += a[i] * b[j]; if (i + j < nrBlocks) { segment += c[i+j]; c[i+j] = (bt)segment; segment >>= bitsInBlock; }
+   Row i adds a[i] * b into the tail of the result that starts at limb i; whatever does not fit the result is dropped.
+   The model's running segment is an unbounded integer: the theorem says the loop nest is correct for EVERY limb width provided the
+   accumulator can hold carry + a[i]*b[j] + c[i+j] (the library's 64-bit accumulator cannot for 64-bit limbs: finding KF-C08-1). ---- *)
+Section Mul.
+Variable w : Z.
+Hypothesis Hw : 1 <= w.
+Local Notation B := (B w).
+Local Notation lvalue := (lvalue w).
+Local Notation wf := (wf w).
+
+Fixpoint mrow (x carry : Z) (ys acc : list Z) {struct acc} : list Z :=
+  match acc, ys with
+  | a :: ar, y :: yr => let t := carry + x * y + a in (t mod B) :: mrow x (t / B) yr ar
+  | _, _ => acc
+  end.
+
+Fixpoint lmul (xs ys acc : list Z) : list Z :=
+  match xs with
+  | [] => acc
+  | x :: xr => match mrow x 0 ys acc with
+               | [] => []
+               | h :: t => h :: lmul xr ys t
+               end
+  end.
+
+Lemma mrow_spec : forall acc ys x carry, wf acc -> (length acc <= length ys)%nat ->
+  wf (mrow x carry ys acc) /\ length (mrow x carry ys acc) = length acc /\
+  exists q, lvalue (mrow x carry ys acc) + B ^ Z.of_nat (length acc) * q = carry + x * lvalue (firstn (length acc) ys) + lvalue acc.
+Proof.
+  assert (HB := B_pos w Hw).
+  induction acc as [|a ar IH]; intros ys x carry Wa Hl.
+  - cbn [mrow length firstn Limbs.lvalue]. repeat split; [constructor|]. exists carry. change (Z.of_nat 0) with 0. rewrite Z.pow_0_r. lia.
+  - destruct ys as [|y yr]; [cbn in Hl; lia|].
+    inversion Wa as [|? ? Ha War]; subst.
+    cbn [mrow]. set (t := carry + x * y + a).
+    cbn [length] in Hl.
+    destruct (IH yr x (t / B) War ltac:(lia)) as (W & L & q & E).
+    repeat split.
+    + constructor; [apply Z.mod_pos_bound; lia|exact W].
+    + cbn [length]. lia.
+    + exists q. cbn [firstn length]. cbn [Limbs.lvalue]. rewrite Nat2Z.inj_succ, Z.pow_succ_r by lia.
+      assert (Hdm := Z.div_mod t B ltac:(lia)). unfold t in *. nia.
+Qed.
+
+(* value of a list modulo B^k only depends on its first k limbs *)
+Lemma lvalue_firstn : forall k ys, exists q, lvalue ys = lvalue (firstn k ys) + B ^ Z.of_nat k * q.
+Proof.
+  induction k as [|k IH]; intros ys.
+  - exists (lvalue ys). cbn [firstn Limbs.lvalue]. change (Z.of_nat 0) with 0. rewrite Z.pow_0_r. lia.
+  - destruct ys as [|y yr]; [exists 0; cbn [firstn Limbs.lvalue]; lia|].
+    destruct (IH yr) as (q & E). exists q. cbn [firstn Limbs.lvalue]. rewrite Nat2Z.inj_succ, Z.pow_succ_r by lia. rewrite E. ring.
+Qed.
+
+Theorem lmul_correct : forall xs ys acc, wf acc -> (length acc <= length ys)%nat ->
+  wf (lmul xs ys acc) /\ length (lmul xs ys acc) = length acc /\
+  exists q, lvalue (lmul xs ys acc) + B ^ Z.of_nat (length acc) * q = lvalue xs * lvalue ys + lvalue acc.
+Proof.
+  assert (HB := B_pos w Hw).
+  induction xs as [|x xr IH]; intros ys acc Wa Hl.
+  - cbn [lmul]. repeat split; auto. exists 0. cbn [Limbs.lvalue]. lia.
+  - cbn [lmul]. destruct (mrow_spec acc ys x 0 Wa Hl) as (W & L & q & E).
+    destruct (mrow x 0 ys acc) as [|h t] eqn:M.
+    + destruct acc as [|a ar]; [|cbn in L; discriminate].
+      repeat split; [constructor|]. exists (lvalue (x :: xr) * lvalue ys). cbn [length Limbs.lvalue]. change (Z.of_nat 0) with 0. rewrite Z.pow_0_r. lia.
+    + destruct acc as [|a ar]; [cbn in L; discriminate|].
+      inversion W as [|? ? Hh Wt]; subst.
+      cbn [length] in *. injection L as L.
+      destruct (IH ys t Wt ltac:(lia)) as (W' & L' & q' & E').
+      repeat split.
+      * constructor; assumption.
+      * cbn [length]. lia.
+      * (* the row accounts for x * (first |acc| limbs of ys); the rest of ys only contributes multiples of B^|acc| *)
+        destruct (lvalue_firstn (S (length ar)) ys) as (qy & Ey).
+        exists (q' + q + x * qy).
+        cbn [Limbs.lvalue] in *. rewrite Nat2Z.inj_succ, Z.pow_succ_r in * by lia.
+        rewrite L in E'. rewrite Ey. nia.
+Qed.
+
+(* modular reading: with a zeroed result of the operands' length the stored limbs are the product modulo B^len *)
+Corollary lmul_mod xs ys : length xs = length ys -> wf ys ->
+  lvalue (lmul xs ys (repeat 0 (length ys))) = (lvalue xs * lvalue ys) mod B ^ Z.of_nat (length ys).
+Proof.
+  intros Hl Wy. assert (HB := B_pos w Hw).
+  assert (Wz : wf (repeat 0 (length ys))).
+  { apply Forall_forall. intros z Hz. apply repeat_spec in Hz. subst z. lia. }
+  assert (Lz : length (repeat 0 (length ys)) = length ys) by apply repeat_length.
+  destruct (lmul_correct xs ys (repeat 0 (length ys)) Wz ltac:(lia)) as (W & L & q & E).
+  rewrite Lz in *.
+  assert (Z0 : lvalue (repeat 0 (length ys)) = 0).
+  { clear. induction (length ys) as [|k IH]; cbn [repeat Limbs.lvalue]; [reflexivity|]. rewrite IH. lia. }
+  rewrite Z0 in E.
+  assert (Hb := lvalue_bound w Hw _ W). rewrite L in Hb.
+  assert (HP : 0 < B ^ Z.of_nat (length ys)) by (apply Z.pow_pos_nonneg; lia).
+  apply Z.mod_unique_pos with (q := q); lia.
+Qed.
+End Mul.
+Print Assumptions lmul_mod.
